@@ -79,3 +79,110 @@ Section ChainExtends.
       intro x. rewrite <- !app_assoc. apply Hw.
   Qed.
 End ChainExtends.
+
+(* ================================================================== the instance *)
+(* the LZ4F_preferences_t that lz4io.c fills (enum / flag fields normalised to their C values) *)
+Definition cvf (p : lz4f_prefs) : FC.prefs :=
+  FC.mkPrefs (fp_blockSizeID p) (if linked p then 0 else 1) (if fp_contentChecksum p =? 0 then 0 else 1)
+             (fp_contentSize p) 0 (if fp_blockChecksum p =? 0 then 0 else 1) (fp_level p) (fp_autoFlush p)
+             (fp_favorDecSpeed p).
+(* -D : a CDict made of the dictionary; no -D : NULL *)
+Definition dk_of (d : list Z) : dictkind := match d with [] => NoDict | _ => UsingCDict d end.
+Definition outb (r : res) : list Z := match r with Out o => o | _ => [] end.
+
+Lemma dict_of_dk d : dict_of (dk_of d) = d.
+Proof. destruct d; reflexivity. Qed.
+
+Lemma cvf_ok p : 4 <= fp_blockSizeID p <= 7 -> 0 <= fp_contentSize p < U64_MAX1 ->
+  prefs_norm (cvf p) /\ eff_prefs (Some (cvf p)) = cvf p /\ FB.desc_of (cvf p) = CliProofs.desc_of p.
+Proof.
+  intros Hb Hc. unfold U64_MAX1 in Hc. split; [|split].
+  - unfold prefs_norm, prefs_ok, cvf. cbn.
+    repeat split; try lia; try (destruct (linked p); auto); try (destruct (_ =? 0); auto).
+  - unfold eff_prefs, cvf. cbn. replace (fp_blockSizeID p =? 0) with false by (symmetry; apply Z.eqb_neq; lia). reflexivity.
+  - unfold FB.desc_of, CliProofs.desc_of, cvf. cbn.
+    destruct (linked p), (fp_blockChecksum p =? 0), (fp_contentChecksum p =? 0); reflexivity.
+Qed.
+
+Section Instance.
+  Variable blk : nat -> list byte -> list byte -> option (list byte).
+  Hypothesis Hblk : blk_contract strict_valid blk.
+  Notation InvC := (Inv strict_valid).
+
+  Definition c4_begin (p : lz4f_prefs) (d : list Z) : res * cctx := compressBegin cctx_zero (Some (cvf p)) (dk_of d).
+  Definition c4_header (p : lz4f_prefs) : list Z := outb (fst (c4_begin p [])).
+  Definition c4_ctx (p : lz4f_prefs) (d : list Z) (prev : list (list Z)) : cctx :=
+    fold_left (fun c x => snd (compressUpdate blk c x)) prev (snd (c4_begin p d)).
+  Definition c4_update (p : lz4f_prefs) (d : list Z) (prev : list (list Z)) (c : list Z) : list Z :=
+    outb (fst (compressUpdate blk (c4_ctx p d prev) c)).
+  Definition c4_end (p : lz4f_prefs) (content : list Z) : list Z :=
+    outb (fst (compressEnd blk (c4_ctx p [] [content]))).
+  Definition c4_frame (p : lz4f_prefs) (dict content : list Z) : list Z :=
+    outb (fst (compressFrame_usingCDict blk cctx_zero content
+                 (match dict with [] => None | _ => Some (createCDict dict) end) (Some (cvf p)))).
+
+  (* ---- LZ4F_compressBegin ---- *)
+  Lemma c4_begin_spec p d : 4 <= fp_blockSizeID p <= 7 -> 0 <= fp_contentSize p < U64_MAX1 ->
+    exists c1 maxb,
+      c4_begin p d = (Out (header_bytes (CliProofs.desc_of p)), c1) /\ bsid_size (fp_blockSizeID p) = Some maxb /\
+      InvC (dk_of d) (cvf p) maxb [] c1 [] /\ c_tmp c1 = [] /\ c_mode c1 = FC_LZ4B_COMPRESSED.
+  Proof.
+    intros Hb Hc. destruct (cvf_ok p Hb Hc) as (Hn & He & Hd).
+    assert (Hpo : prefs_opt_ok (Some (cvf p))) by exact (proj1 Hn).
+    assert (HO : exists hdr c1, c4_begin p d = (Out hdr, c1) /\ c_mode c1 = FC_LZ4B_COMPRESSED).
+    { unfold c4_begin, compressBegin, compressBegin_internal. cbn [cvf p_bsid].
+      replace (fp_blockSizeID p =? 0) with false by (symmetry; apply Z.eqb_neq; lia).
+      assert (HE : isError (getBlockSize (fp_blockSizeID p)) = false).
+      { assert (Hcs : fp_blockSizeID p = 4 \/ fp_blockSizeID p = 5 \/ fp_blockSizeID p = 6 \/ fp_blockSizeID p = 7) by lia.
+        destruct Hcs as [->|[->|[->| ->]]]; reflexivity. }
+      unfold dk_of; destruct d; change (p_bsid (cvf p)) with (fp_blockSizeID p); rewrite HE; eexists _, _; (split; [reflexivity|reflexivity]). }
+    destruct HO as (hdr & c1 & HB & Hm).
+    destruct (begin_inv strict_valid cctx_zero (Some (cvf p)) (dk_of d) hdr c1 Hpo HB) as (p' & maxb & Hp' & _ & Hmaxb & Hhdr & HI).
+    rewrite He in Hp'. subst p'. rewrite Hd in Hhdr. subst hdr.
+    exists c1, maxb. split; [exact HB|]. split; [exact Hmaxb|]. split; [exact HI|]. split; [|exact Hm].
+    destruct HI as [_ HX _ _ _ _]. cbn in HX. symmetry. exact HX.
+  Qed.
+
+  (* ---- the session after any list of LZ4F_compressUpdate calls ---- *)
+  Lemma c4_fold dk p' maxb : prefs_norm p' -> 0 < maxb < 2147483648 ->
+    forall prev X c bl, InvC dk p' maxb X c bl -> FCI.afJ c -> c_mode c = FC_LZ4B_COMPRESSED ->
+    exists bl', InvC dk p' maxb (X ++ concat prev) (fold_left (fun c x => snd (compressUpdate blk c x)) prev c) bl' /\
+                FCI.afJ (fold_left (fun c x => snd (compressUpdate blk c x)) prev c) /\
+                c_mode (fold_left (fun c x => snd (compressUpdate blk c x)) prev c) = FC_LZ4B_COMPRESSED.
+  Proof.
+    intros Hn Hmax. induction prev as [|x r IH]; intros X c bl HI HJ Hm.
+    - exists bl. cbn. rewrite app_nil_r. auto.
+    - cbn [fold_left concat].
+      destruct (FCI.update_out blk Hblk dk p' maxb X c bl x FC_LZ4B_COMPRESSED Hn Hmax HI) as (o & c' & Hu).
+      fold (compressUpdate blk c x) in Hu. rewrite Hu. cbn [snd].
+      destruct (update_inv blk strict_valid Hblk strict_valid_ext dk p' maxb X c bl x FC_LZ4B_COMPRESSED o c' Hn Hmax HI ltac:(intros _; reflexivity) Hu)
+        as (bl' & _ & HI').
+      destruct (FCI.update_afJ blk c x o c' Hm HJ Hu) as [HJ' Hm'].
+      destruct (IH (X ++ x) c' (bl ++ bl') HI' HJ' Hm') as (bl2 & A & B & C).
+      exists bl2. rewrite <- app_assoc in A. auto.
+  Qed.
+
+  Lemma c4_ctx_spec p d prev : 4 <= fp_blockSizeID p <= 7 -> 0 <= fp_contentSize p < U64_MAX1 ->
+    exists maxb bl, bsid_size (fp_blockSizeID p) = Some maxb /\
+      InvC (dk_of d) (cvf p) maxb (concat prev) (c4_ctx p d prev) bl /\ FCI.afJ (c4_ctx p d prev) /\
+      c_mode (c4_ctx p d prev) = FC_LZ4B_COMPRESSED.
+  Proof.
+    intros Hb Hc. destruct (c4_begin_spec p d Hb Hc) as (c1 & maxb & HB & Hmaxb & HI & Ht & Hm).
+    destruct (cvf_ok p Hb Hc) as (Hn & _).
+    pose proof (bsid_size_range _ _ Hmaxb) as Hmax.
+    destruct (c4_fold (dk_of d) (cvf p) maxb Hn Hmax prev [] c1 [] HI ltac:(intros _; exact Ht) Hm) as (bl & A & B & C).
+    unfold c4_ctx. rewrite HB. cbn [snd]. exists maxb, bl. auto.
+  Qed.
+
+  (* ---- header_contract holds as stated ---- *)
+  Theorem c4_header_contract : header_contract c4_header.
+  Proof.
+    intros p Hb Hc. destruct (c4_begin_spec p [] Hb Hc) as (c1 & maxb & HB & Hmaxb & _).
+    destruct (cvf_ok p Hb Hc) as (Hn & _ & Hd).
+    exists maxb. unfold c4_header. rewrite HB. cbn [fst outb]. split; [cbn [CliProofs.desc_of f_bsid]; exact Hmaxb|].
+    intro rest. unfold header_bytes. rewrite <- !app_assoc.
+    exists (le_bytes 4 MAGIC), (descriptor_bytes (CliProofs.desc_of p) ++ [header_checksum (descriptor_bytes (CliProofs.desc_of p))] ++ rest).
+    split; [apply take_le_bytes|]. split; [apply le_val_le_bytes_4; unfold MAGIC; lia|].
+    apply parse_desc_header. rewrite <- Hd. apply desc_of_wf. exact Hn.
+  Qed.
+End Instance.
